@@ -29,7 +29,22 @@ INSTS = {
     "C19": TAKES,
     "C20": ALL,
 }
-RANDOM = {"quick": (1500, 40), "thorough": (20000, 60)}
+# parameter sweep: larger arities and counts than the standing instances (the theorems hold for all n; the correspondence samples n).
+# Run in the thorough tier, and in the quick tier for operators whose source file drifted (tools/fingerprint.py): (instance, depth)
+SWEEP = {
+    "take": [("take:4", 7), ("take:5", 6), ("take:7", 6)], "skip": [("skip:3", 7), ("skip:5", 6)],
+    "merge": [("merge:4", 6), ("merge:5", 5), ("merge:6", 5)], "concat": [("concat:4", 7), ("concat:5", 6), ("concat:6", 6)],
+    "combine": [("combine:12", 4)], "share": [("share:4", 6), ("share:5", 5)], "fromiter": [("fromiter:3", 8), ("fromiter:5", 7)],
+    "scan": [("scan:lin:3:7", 7)], "filter": [("filter:mod:5:2", 7)], "map": [("map:mul:-2", 7)],
+    "chain": [("chain:merge,3/take,2", 6), ("chain:concat,3/skip,1/take,2", 6), ("chain:map,add,1/filter,mod,2,0/scan,lin,2,0/take,3", 6)],
+}
+RANDOM = {"quick": (1500, 40), "thorough": (50000, 80)}
+
+
+def sweep_for(insts):
+    """sweep instances of the operators that occur in a plan"""
+    ops = {i.split(":")[0] for (i, _, _) in insts}
+    return [(i, d, d) for op in sorted(ops) for (i, d) in SWEEP.get(op, [])]
 
 
 def plan(prop, tier):
@@ -38,6 +53,8 @@ def plan(prop, tier):
     import fingerprint
     drifted = fingerprint.drifted_files()
     out = []
+    sweep = sweep_for(insts)
+    insts = list(insts) + [x for x in sweep if tier != "quick" or fingerprint.drifted_instance(x[0], drifted)]
     for (i, dq, dt) in insts:
         # STRUCTURE DRIFT (tools/fingerprint.py, DESIGN §9.10): the source file an instance was modelled from differs from the one
         # the model was validated against -> the thorough tier's budgets for that instance, whatever tier was asked for
